@@ -91,7 +91,7 @@ CLAIMS = {
              "American >= European binary and exactly one once reached, continuity at the branch) is enumerated over the lattice and evaluated on pfhedge.nn.functional in float64. Inequalities are decided on the lattice only.",
         note="Trusted: TLC, torch. The machine cannot evaluate erf/exp: relations between lattice points are decided by evaluating the code, not by the model; nothing is claimed between lattice points."),
     "C10": dict(
-        engine="Sim.tla + CIR.tla / TLC -> path-wise replay with supplied normals; one-step moments on quadrature nodes",
+        engine="Sim.tla + CIR.tla + Heston.tla / TLC -> path-wise replay with supplied normals; one-step moments on quadrature nodes",
         technique="TLA+ scheme machines (one Step(z) per time step, exact coefficient/rational domains) checked by TLC against closed forms for every sequence of supplied normals; CIR moment machine (tower law) checked against the closed-form mean-reverting mean and variance; real generators replayed on exactly those normals / on Gauss-Hermite and Gauss-Laguerre nodes",
         category=MC, design_ref="DESIGN.md 3 C10, 4",
         text="PARTIAL: decides the path-wise half of the property and the CIR/Heston variance moments. Sim.tla models Brownian, geometric Brownian, Merton (with supplied jump counts), Vasicek (exact OU transition) and local-volatility Euler "
@@ -100,7 +100,8 @@ CLAIMS = {
              "CIR.tla: exact rational conditional moments m(v), s2(v), psi and the branch of the quadratic-exponential scheme with exp(-kappa dt) as a rational parameter; TLC checks that propagating them by the tower law gives the "
              "closed-form mean-reverting mean and variance from any starting value (MeanClosedForm, VarClosedForm) and that the exponential mixture reproduces m and psi m^2 (ExpBranchMatches); one real step of generate_cir and "
              "generate_heston from each lattice value is run on quadrature nodes (3 Gauss-Hermite normals: V' is quadratic in Z; 2 Gauss-Laguerre nodes mapped to uniforms; probes around the atom at zero) and its exact "
-             "conditional mean and variance compared with m and s2 at 1e-9. Sample-estimate statements (price means, Heston correlation, rough-Bergomi forward variance, jump-model log-variance) are NOT decided.",
+             "conditional mean and variance compared with m and s2 at 1e-9. Heston.tla: the log-price step derived from the SDE vs the coefficients k0..k4 (ImplementationIsDerivation, ReturnFollowsVarianceWithSignOfRho, "
+             "ZeroRhoDecouples), replayed into generate_heston / HestonStock on supplied normals. Sample-estimate statements (price means, Heston correlation, rough-Bergomi forward variance, jump-model log-variance) are NOT decided.",
         note="Trusted: TLC, torch; public torch functions (randn_like, rand_like, Poisson.sample) replaced for one call. dt is handed to the CIR generators as a float64 tensor because Python-float parameters pass through float32 inside them."),
     "C11": dict(
         engine="Market.tla / TLC -> replay on real primaries and generators",
